@@ -14,6 +14,14 @@ def run(ctx):
                 if ctx.quick and cfg in ("GenX_n2", "GenX_n3c") and i % 2:   # quick: every second
                     continue
                 out.write(line)
+    # systems coupled with implicit equations (classes read the unknowns, the equation reads a state or t) x marks
+    for cfg in ["GenXU_n1", "GenXU_n2"]:
+        part = ctx.gen("System", "Gen_ExtU.tla", cfg + ".cfg", cfg, workers=8, timeout=6000, heap="16g")
+        with open(scen, "a") as out:
+            for i, line in enumerate(open(part)):
+                if ctx.quick and cfg == "GenXU_n2" and i % 8:     # quick: every eighth
+                    continue
+                out.write(line)
     ctx.sample(scen, 3)
     trace = ctx.execute("system", scen, timeout_s=120)
     ctx.validate("System", "Trace_System.tla", "Trace_C20.cfg", trace, "system", parallel=12)
@@ -21,7 +29,7 @@ def run(ctx):
     ctx.cov["programs"] = n * 2
     ctx.cov["distinct_nontrivial"] = n
     ctx.finish("model_checking",
-               "every well-posed system of %s classes (roles constant / computed constant / state / algebraic, seconds / milliseconds components, optional implicit equation, optional uninitialised constant) x every admissible set of marks "
+               "every well-posed system of %s classes (roles constant / computed constant / state / algebraic, seconds / milliseconds components, optional implicit equation - isolated, or coupled: read by the classes (one unknown or a pair) and reading a state or t -, optional uninitialised constant) x every admissible set of marks "
                "(a class through any of its member variables, the variable of integration, a foreign variable, the implicit unknown; declared dependencies none or one class; no ordering cycles): the model is analysed without and with the marks; "
                "TLC requires a valid model, exactly the marked classes external with one placeholder equation, unchanged type / equation for every variable not reading an external, exactly the expected messages, "
                "and - from the generated C and Python run in two steps with a callback whose values change between the steps - every value of both steps, callback use exactly when needed, and declared dependencies defined at every callback call" % ("1-2" if ctx.quick else "1-3"),
